@@ -429,6 +429,56 @@ Definition strip_near_equal (p : path) (maxd : float) (closed : bool) : res path
     if negb closed then Ok r else pop_back_near (S (length r)) first r maxd
   end.
 
+(* StripNearEqual<T> for any point type, given NearEqual(p1, p2, max_dist_sqrd) as a boolean function.  The same
+   statements as above ([strip_near_equal] is its int64 instance, proofs/PathUtilsNearGen.v): the forward pass keeps a
+   point iff it is not near the last KEPT point, then `while (result.size() > 1 && NearEqual(result.back(), first_pt))
+   result.pop_back();` cuts the end of a closed path back for as long as it is near the first point. *)
+Section StripNearGen.
+  Variable P : Type.
+  Variable nearb : P -> P -> bool.
+  Fixpoint strip_near_from_g (last : P) (l : list P) : list P :=
+    match l with
+    | [] => []
+    | x :: t => if negb (nearb x last) then x :: strip_near_from_g x t else strip_near_from_g last t
+    end.
+  Fixpoint pop_back_near_g (fuel : nat) (first : P) (l : list P) : res (list P) :=
+    match fuel with
+    | O => ErrFuel
+    | S f =>
+      if 1 <? length l then
+        a <- rd l (length l - 1) ;;
+        if nearb a first then pop_back_near_g f first (removelast l) else Ok l
+      else Ok l
+    end.
+  Definition strip_near_equal_g (p : list P) (closed : bool) : res (list P) :=
+    match p with
+    | [] => Ok []
+    | first :: t =>
+      let r := first :: strip_near_from_g first t in
+      if negb closed then Ok r else pop_back_near_g (S (length r)) first r
+    end.
+End StripNearGen.
+
+(* Point<double>: NearEqual = Sqr(p1.x - p2.x) + Sqr(p1.y - p2.y) < max_dist_sqrd, all in binary64 *)
+Definition ptd : Type := (float * float)%type.
+Definition near_equal_d (a b : ptd) (maxd : float) : bool :=
+  (fsqr (fst a - fst b) + fsqr (snd a - snd b) <? maxd)%float.
+Definition strip_near_equal_d (p : list ptd) (maxd : float) (closed : bool) : res (list ptd) :=
+  strip_near_equal_g ptd (fun a b => near_equal_d a b maxd) p closed.
+
+(* the Paths<T> overloads apply the single-path function to every path, in order *)
+Fixpoint map_res {A B} (f : A -> res B) (l : list A) : res (list B) :=
+  match l with
+  | [] => Ok []
+  | x :: t => y <- f x ;; r <- map_res f t ;; Ok (y :: r)
+  end.
+Definition strip_near_equal_paths (ps : list path) (maxd : float) (closed : bool) : res (list path) :=
+  map_res (fun p => strip_near_equal p maxd closed) ps.
+Definition strip_near_equal_paths_d (ps : list (list ptd)) (maxd : float) (closed : bool) : res (list (list ptd)) :=
+  map_res (fun p => strip_near_equal_d p maxd closed) ps.
+Definition strip_duplicates_paths (ps : list path) (closed : bool) : res (list path) :=
+  map_res (fun p => strip_duplicates p closed) ps.
+
 (* ------------------------------------------------------------------ GetBounds(Path64) / TranslatePath(Path64) *)
 Definition I64_MAX : Z := (2 ^ 63 - 1)%Z.
 Definition I64_LOWEST : Z := (- 2 ^ 63)%Z.
@@ -637,6 +687,12 @@ Example rdp_ex :
   rdp_path [(0,0);(5,1);(10,0);(15,7);(20,0)]%Z 2%float = Ok [(0,0);(10,0);(15,7);(20,0)]%Z.
 Proof. vm_compute. reflexivity. Qed.
 (* a path that ends where it starts: the chord runs to the last vertex that differs from the first; both are kept *)
+(* two trailing vertices near the first one but not near one another: both are cut from the closed path *)
+Example strip_near_fan :
+  strip_near_equal [(0,0);(100,0);(100,100);(0,100);(0,4);(4,0)]%Z 25%float true = Ok [(0,0);(100,0);(100,100);(0,100)]%Z
+  /\ strip_near_equal [(0,0);(100,0);(100,100);(0,100);(0,4);(4,0)]%Z 25%float false
+     = Ok [(0,0);(100,0);(100,100);(0,100);(0,4);(4,0)]%Z.
+Proof. split; vm_compute; reflexivity. Qed.
 Example rdp_ex_ring :
   rdp_path [(0,0);(10,10);(20,0);(30,10);(40,0);(0,0);(0,0)]%Z 1%float = Ok [(0,0);(10,10);(20,0);(30,10);(40,0);(0,0)]%Z.
 Proof. vm_compute. reflexivity. Qed.
